@@ -43,6 +43,16 @@ def run_groups(ctx, pid, groups, tag, jobs=16, sig_prefix=None, lines_per_file=N
             ctx.violation(f"{sig_prefix}/build/{g['route'][0]}", f"definition could not be built via {g['route']}: {type(e).__name__}: {e}",
                           {"defn": g["defn"], "route": list(g["route"])})
             continue
+        # a generator started with another root container has run on this definition before (and must have left it alone)
+        others = [c for c in g["defn"]["corder"] if c != g["defn"]["root"]]
+        if others and g["route"][0] != "file":
+            import warnings
+            with warnings.catch_warnings():
+                warnings.simplefilter("ignore")
+                try:
+                    list(dobj.packet_generator(bytes(g["pkts"][0]) if g["pkts"] else b"", root_container_name=others[-1]))
+                except Exception:  # noqa: BLE001
+                    pass
         obs = []
         for pk in g["pkts"]:
             o = xdoc.observe_packet(dobj, g["defn"], pk)
